@@ -152,9 +152,13 @@ where
     // counts, means and variances (law of total variance)
     fn max_feature_variance(model: &GaussianNb<F, L>) -> Result<F>
     where
-        L: Eq + Hash,
+        L: Eq + Hash + Ord,
     {
-        let infos = model.class_info.values();
+        // classes in label order: the floating point sums must not depend on the iteration order
+        // of the hash map
+        let mut infos = model.class_info.iter().collect::<Vec<_>>();
+        infos.sort_by(|a, b| a.0.cmp(b.0));
+        let infos = infos.into_iter().map(|(_, info)| info);
         let count = F::cast(infos.clone().map(|x| x.class_count).sum::<usize>());
         let nfeatures = infos.clone().map(|x| x.theta.len()).max().unwrap_or(0);
         let mut mean = Array1::<F>::zeros(nfeatures);
